@@ -325,6 +325,24 @@ func (g *G) govMsg(v *view) script.Msg {
 	return script.M("str.params", auth, fee)
 }
 
+// proposal generates the messages of one governance proposal: mostly a single parameter update; now and then two or
+// three messages, among them an update that fails or a transfer out of the (usually empty) gov account, which makes
+// x/gov discard everything the earlier messages of the proposal did.
+func (g *G) proposal(v *view) []script.Msg {
+	ms := []script.Msg{g.govMsg(v)}
+	if !g.chance(25) {
+		return ms
+	}
+	for n := 1 + g.rng.Intn(2); n > 0; n-- {
+		if g.chance(40) {
+			ms = append(ms, script.M("bank.send", "Mgov", A(g.anyAcct()), g.pick("1000000000000000000000nund", "7nund", "1atoken")))
+		} else {
+			ms = append(ms, g.govMsg(v))
+		}
+	}
+	return ms
+}
+
 func (g *G) rng2(xs []string, x string) []string {
 	if len(xs) == 0 {
 		return []string{x}
